@@ -1,0 +1,62 @@
+//go:build verif
+
+package sqlc_model
+
+// Contracts for govc (property C15). Comment-only file: it adds no code.
+//
+// The generated query methods are not verified (they only hand their arguments to
+// database/sql); each is given an opaque contract that records, in ghost variables, WHAT the
+// calling goroutine asked the database to do. Nothing is assumed about the answer of the
+// database: the error result of every method is unconstrained.
+//   dbAddN / dbDelN / dbClaimN    number of AddURL / DeleteURL / ClaimThisURL calls so far
+//   dbAddID .. dbAddHops         the row offered by the last AddURL call
+//   dbDelID, dbClaimID           the id given to the last DeleteURL / ClaimThisURL call
+//   dbFreshLimit               the limit given to the last GetFreshURLs call
+//   dbFreshArr, dbFreshLen       the slice returned by the last GetFreshURLs call
+//@ ghost var dbAddN int
+//@ ghost var dbAddID string
+//@ ghost var dbAddValue string
+//@ ghost var dbAddVia string
+//@ ghost var dbAddHops int64
+//@ ghost var dbDelN int
+//@ ghost var dbDelID string
+//@ ghost var dbClaimN int
+//@ ghost var dbClaimID string
+//@ ghost var dbFreshLimit int64
+//@ ghost var dbFreshArr mathint
+//@ ghost var dbFreshLen mathint
+//@ pure nAdds() int = dbAddN
+//@ pure nDeletes() int = dbDelN
+//@ pure nClaims() int = dbClaimN
+//@ pred lastAdd(value string, via string, hops int64) = dbAddValue == value && dbAddVia == via && dbAddHops == hops
+//@ pure lastAddID() string = dbAddID
+//@ pure lastDeleteID() string = dbDelID
+//@ pure lastClaimID() string = dbClaimID
+//@ pure lastFreshLimit() int64 = dbFreshLimit
+//@ pred lastFresh(s []Url) = dbFreshArr == arrof(s) && dbFreshLen == len(s)
+
+//@ func (*Queries).AddURL
+//@   opaque
+//@   modifies dbAddN, dbAddID, dbAddValue, dbAddVia, dbAddHops
+//@   ensures dbAddN == old(dbAddN) + 1 && dbAddID == arg.ID && dbAddValue == arg.Value && dbAddVia == arg.Via && dbAddHops == arg.Hops
+
+//@ func (*Queries).DeleteURL
+//@   opaque
+//@   modifies dbDelN, dbDelID
+//@   ensures dbDelN == old(dbDelN) + 1 && dbDelID == id
+
+//@ func (*Queries).ClaimThisURL
+//@   opaque
+//@   modifies dbClaimN, dbClaimID
+//@   ensures dbClaimN == old(dbClaimN) + 1 && dbClaimID == id
+
+//@ func (*Queries).GetFreshURLs
+//@   opaque
+//@   modifies dbFreshLimit, dbFreshArr, dbFreshLen
+//@   ensures dbFreshLimit == limit && dbFreshArr == arrof(result0) && dbFreshLen == len(result0)
+//@   ensures result1 != nil ==> len(result0) == 0
+
+//@ func (*Queries).WithTx
+//@   opaque
+//@   modifies nothing
+//@   ensures result != nil
